@@ -346,7 +346,6 @@ static inline int post_verif_take(sv_t idx, sv_t shape, iv_t indices, int axis, 
  * shape_resize(src,dst): Nothing iff ranks differ or some dst extent is 0, else dst;  resize(i)[k] = floor(src[k] * i[k] / dst[k]). */
 GHOST_ARR(unsigned long, RZP, 10)   /* RZP[k] = 1 iff k >= ndim or dst[k] > 0 */
 GHOST_ARR(unsigned long, RZQ, 10)   /* RZQ[k] = floor(src[k]*idx[k]/dst[k]) */
-GHOST_ARR(unsigned long, RZR, 10)   /* RZR[k] = RZQ[k] after the float round trip of resize.hpp:73 */
 #define C04_U32MAX 4294967295UL
 static inline int pre_verif_shape_resize(sv_t src_shape, sv_t dst_shape)
 {
@@ -387,7 +386,6 @@ static inline int pre_verif_resize(sv_t idx, sv_t src_shape, sv_t dst_shape)
       ok = ok && GHOST_DEF(RZQ[k], DIV_ul(MUL_ul(SV_AT(src_shape, k), SV_AT(idx, k)), SV_AT(dst_shape, k)));
       /* arithmetic fact (theorem for products that fit): i < d && s >= 1  ==>  s*i/d < s */
       ok = ok && RZQ[k] < SV_AT(src_shape, k);
-      ok = ok && GHOST_DEF(RZR[k], (unsigned long)(float)RZQ[k]);
     }
   return ok;
 }
